@@ -328,6 +328,13 @@ def url_entries(default_cb, default_stream):
         if t is not None:
             e[s + '_stream_type'] = ('S', t)
     e['l0b_inherit'] = ('S', 'l0')
+    # the type of a stream is a key like any other: it may come through the inherit chain (l0c has none of its own)
+    # or from the capture block + stream namespace, which outranks the plain stream namespace (l0d, fx)
+    e['l0c_inherit'] = ('S', 'l0')
+    e['l0d_stream_type'] = ('S', 'sdp.vis')
+    e['cbb_l0d_stream_type'] = ('S', 'sdp.flags')
+    e['fx_stream_type'] = ('S', 'sdp.flags')
+    e['cba_fx_stream_type'] = ('S', 'sdp.vis')
     if default_cb:
         e['capture_block_id'] = ('S', default_cb)
     if default_stream:
@@ -361,7 +368,8 @@ def gen_url_case(rng):
         return rng.choice(opts)
     return dict(kind='url', dcb=pick([None, 'cba', 'cba']), ds=pick([None, 'l0', 'l0', 'fl']),
                 qcb=pick([None, None, 'cba', 'cbb']), kcb=pick(['-', '-', None, '', 'cba', 'cbb']),
-                qs=pick([None, None, 'l0', 'l0b', 'fl', 'cal']), ks=pick(['-', '-', None, '', 'l0', 'l0b', 'fl']),
+                qs=pick([None, None, 'l0', 'l0b', 'fl', 'cal', 'l0c', 'l0d', 'fx']),
+                ks=pick(['-', '-', '-', None, '', 'l0', 'l0b', 'fl', 'l0c', 'l0d', 'fx']),
                 dup=rng.random() < 0.15, style=pick(['path', 'file']))
 
 
@@ -404,11 +412,20 @@ def run_url(ctx, case, files):
     sn = eff_s or case['ds']
     if not cb or not sn:
         res['want'] = ('E', 'no capture block / stream given or recorded')
-    elif URL_STREAMS.get(sn) != 'sdp.vis':
-        res['want'] = ('E', f'stream {sn} is not sdp.vis')
     else:
-        streams = ['l0b', 'l0'] if sn == 'l0b' else [sn]
-        res['want'] = (cb, sn, spec_order(cb, streams))
+        streams = [sn, 'l0'] if sn in ('l0b', 'l0c') else [sn]
+        # the stream type by the documented order of namespaces
+        keys = [f'{cb}_{x}' for x in streams] + [cb] + streams + ['']
+        typ = None
+        for k_ in keys:
+            v = entries.get((k_ + '_' if k_ else '') + 'stream_type')
+            if v is not None:
+                typ = v[1]
+                break
+        if typ != 'sdp.vis':
+            res['want'] = ('E', f'stream {sn} of capture block {cb} has type {typ}, not sdp.vis')
+        else:
+            res['want'] = (cb, sn, spec_order(cb, streams))
     return res
 
 
@@ -789,6 +806,12 @@ def run_notfound(ctx, tmpdir, files):
              ('truncated rdb', trunc), ('empty file', empty), ('unknown scheme', 'ftp://host/x.rdb'),
              ('file url missing', 'file://' + os.path.join(tmpdir, 'nope2.rdb')),
              ('missing with query', os.path.join(tmpdir, 'nope3.rdb') + '?stream_name=l0')]
+    # a telstate server that refuses the connection (a loopback port that is bound but not listening)
+    import socket
+    sock = socket.socket()
+    sock.bind(('127.0.0.1', 0))
+    cands.append(('redis server refusing the connection', f'redis://127.0.0.1:{sock.getsockname()[1]}'))
+    cands.append(('redis server refusing, with query', f'redis://127.0.0.1:{sock.getsockname()[1]}/?capture_block_id=cba&db=1'))
     bad = []
     for what, url in cands:
         ctx.tag('notfound')
@@ -802,6 +825,7 @@ def run_notfound(ctx, tmpdir, files):
             v = f'open_data_source on {what} raised {type(e).__name__} ({e}) instead of DataSourceNotFound'
         if v:
             bad.append((dict(kind='notfound', what=what), v))
+    sock.close()
     # and the readable one opens
     try:
         src = open_data_source(good, chunk_store=None)
